@@ -17,7 +17,8 @@ Operation kinds (base = basename of the file concerned):
   mergesum  MergeData._process_sum (base of the result file)
   fwrite    a text intermediate (*.tsv, *.tsv.tmp) opened for writing through builtins.open: the raw file under the buffered writer
             fails with ENOSPC once "byte" bytes have reached it (base = the name without ".tmp"); the device stays full (fault mode only)
-crash  = SIGKILL to the whole process group (main process, pool workers, manager servers) at the event
+crash  = SIGKILL to the whole process group (main process, pool workers, manager servers) at the event; variant "term" (per-gene steps of the
+         overlap stage): SIGTERM to the main process only, the harness removes whatever is left of the group once the main process has ended
 fault  = OSError(ENOSPC) raised by the file operation / RuntimeError raised by the computation step."""
 import errno, json, os, runpy, signal, sys
 
@@ -46,6 +47,11 @@ def hit(kind, base, **extra):
 
 def die():
     _log({"kind": "DIE", "pid": os.getpid()})
+    if VARIANT == "term":
+        # a polite kill (kill <pid>, the time limit of a batch scheduler, shutdown): SIGTERM to the MAIN process only - the launcher runs
+        # in its own session, so the process group id is the main process - while this process carries on until it is stopped
+        os.kill(os.getpgrp(), signal.SIGTERM)
+        return
     os.killpg(os.getpgrp(), signal.SIGKILL)
     os._exit(137)
 
